@@ -6,6 +6,7 @@
 From Coq Require Import String List ZArith Bool Arith.
 From TR Require Import Extracted model.Socket proofs.SocketProofs.
 From TR Require Import model.GoSem model.ConnExt translated.ConnLoop proofs.TieConn.
+From TR Require Import model.HdrExt translated.HeaderReader proofs.TieHdr.
 Import ListNotations.
 Close Scope string_scope.
 Open Scope list_scope.
@@ -133,3 +134,83 @@ Theorem C14_source_stop_once : forall cfg cs script i1 i2 fuel text rest h,
     (fun r w' => exists before, cw_log w' = before ++ [EStop REC_TOK] /\ filter is_stop before = [] /\
                                 hd_error before = Some (EAutoFFC true) /\ In (ENewRecorder REC_TOK) before).
 Proof. exact tie_handleConn_stop. Qed.
+
+(* ---- the header reader itself (coq/translated/HeaderReader.v, regenerated from ReadHeaderInfo, toInt,
+   toStr and the accessors of headers/headerinfo.go on every run; outside world: model/HdrExt.v, in which
+   yaml.Unmarshal is a decoder PARAMETER [dec] - every statement is for every decoder) ---- *)
+
+(* ReadHeaderInfo as written, for every world in which [rd] is the bufio.Reader, every segmentation of the
+   stream and fuel >= S (total_len cs): it does not panic and ([hdr_post])
+   - when the stream ends before the blank line (Socket.header_c = None) it returns io.EOF and the zero
+     description, has consumed everything and never calls the decoder;
+   - otherwise the decoder is called exactly once with exactly header_c's text, the stream is left at
+     exactly header_c's rest (NOTHING beyond the blank line is consumed), the decoder's error is returned
+     when it fails, and else the eight fields are toInt / toStr of the decoded map under the keys of
+     headers/headers.go (missing or wrongly typed: 0 / "") *)
+Theorem C14_source_header : forall dec rd w fuel,
+  hoget w rd = HReader -> (S (total_len (hw_in w)) <= fuel)%nat ->
+  hpost (src_header dec fuel rd w) (hdr_post dec rd w).
+Proof. exact tie_ReadHeaderInfo. Qed.
+
+(* an error exactly when the stream ends before the blank line or the decoder fails *)
+Theorem C14_source_header_error_iff : forall dec rd w fuel,
+  hoget w rd = HReader -> (S (total_len (hw_in w)) <= fuel)%nat ->
+  hpost (src_header dec fuel rd w) (fun r w' => exists hi e, r = Some (hi, e) /\
+    (e <> 0 <->
+     (header_c (S (total_len (hw_in w))) (hw_in w) [] = None \/
+      exists text rest, header_c (S (total_len (hw_in w))) (hw_in w) [] = Some (text, rest) /\ dec text = None))).
+Proof. exact tie_ReadHeaderInfo_error_iff. Qed.
+
+(* the text the Go code hands to the YAML decoder is the cr_header of the model the theorems above are about *)
+Theorem C14_source_header_is_model : forall dec fs cs rd w fuel,
+  hoget w rd = HReader -> hw_in w = cs -> (S (total_len cs) <= fuel)%nat ->
+  hpost (src_header dec fuel rd w) (fun r w' =>
+    hw_decoded w' = hw_decoded w ++ match cr_header (run_conn fs cs) with Some t => [t] | None => [] end).
+Proof. exact src_header_is_run_conn. Qed.
+
+(* C14_truncated_header_errors for the source: a header cut short at ANY point, any segmentation - an error
+   (io.EOF), the zero description, no decoder call, no hang (the stated fuel suffices) *)
+Theorem C14_source_header_truncated : forall dec h p q rd w fuel,
+  header_text_ok h = true -> h ++ [NL] = p ++ q -> q <> [] ->
+  hoget w rd = HReader -> List.concat (hw_in w) = p -> (S (total_len (hw_in w)) <= fuel)%nat ->
+  hpost (src_header dec fuel rd w) (fun r w' =>
+    r = Some (ZERO_HI, ERR_EOF) /\ hw_in w' = [] /\ hw_decoded w' = hw_decoded w).
+Proof. exact src_truncated_header_errors. Qed.
+
+(* C14_stream_roundtrip's header half for the source: the encoder's text is what the decoder gets, exactly the
+   bytes after the blank line remain for the frame loop *)
+Theorem C14_source_header_roundtrip : forall dec h tail rd w fuel,
+  header_text_ok h = true -> hoget w rd = HReader -> List.concat (hw_in w) = h ++ [NL] ++ tail ->
+  (S (total_len (hw_in w)) <= fuel)%nat ->
+  hpost (src_header dec fuel rd w) (fun r w' =>
+    List.concat (hw_in w') = tail /\ hw_decoded w' = hw_decoded w ++ [h] /\
+    match dec h with
+    | None => r = Some (ZERO_HI, ERR_OTHER)
+    | Some m => exists hi, r = Some (hi, 0) /\ hdr_view w' hi = Some (fields_of m)
+    end).
+Proof. exact src_header_roundtrip. Qed.
+
+(* the meaning model/ConnExt.v gives by hand to handleConn's call headers.ReadHeaderInfo(reader) - on which
+   the C14_source_conn theorems rest - is what the translated function computes on the same stream, when
+   c_decode is "decode, then the HeaderInfo literal" *)
+Theorem C14_source_header_conn_clause : forall dec cfg cw r tok cw' hw rd fuel,
+  (forall t, c_decode cfg t = option_map (fun m => hdr_of_fields (fields_of m)) (dec t)) ->
+  oget cw r = OReader -> do_readheader cfg [AInt r] cw = (tok, cw') ->
+  hoget hw rd = HReader -> hw_in hw = cw_in cw -> (S (total_len (cw_in cw)) <= fuel)%nat ->
+  hpost (src_header dec fuel rd hw) (fun res hw' =>
+    hw_in hw' = cw_in cw' /\
+    exists hi, res = Some (hi, cw_pending cw') /\
+    (cw_pending cw' = 0 ->
+     exists f, hdr_view hw' hi = Some f /\ oget cw' tok = OHeader (hdr_of_fields f))).
+Proof. exact conn_header_clause_is_source. Qed.
+
+Theorem C14_source_header_accessors : forall W (ext : String.string -> list arg -> W -> Z * W) (h : HeaderInfo) (w : W),
+  HeaderInfo_ResX ext h w = Ok (h, HeaderInfo_resX h) w /\
+  HeaderInfo_ResY ext h w = Ok (h, HeaderInfo_resY h) w /\
+  HeaderInfo_FPS ext h w = Ok (h, HeaderInfo_fps h) w /\
+  HeaderInfo_FrameSize ext h w = Ok (h, HeaderInfo_framesize h) w /\
+  HeaderInfo_Model ext h w = Ok (h, HeaderInfo_model h) w /\
+  HeaderInfo_Brand ext h w = Ok (h, HeaderInfo_brand h) w /\
+  HeaderInfo_Firmware ext h w = Ok (h, HeaderInfo_firmware h) w /\
+  HeaderInfo_CameraSerial ext h w = Ok (h, HeaderInfo_serial h) w.
+Proof. exact tie_accessors. Qed.
